@@ -64,7 +64,7 @@ def gen_plan(seed, k):
                {"op": "run", "i": 0, "block": 50, "until": ["FINISHED"], "max": 600},
                {"op": "cancel", "i": 0}, {"op": "run", "i": 0, "block": 0, "until": ["FINISHED"], "max": 50}]
         return {"id": k, "seed": seed, "entropy_seed": seed & 0x7fffffff, "mode": "det", "engine": "large", "source": os.path.basename(os.path.dirname(f)) + "/" + os.path.basename(f),
-                "sched": {"seed": seed & 0x7fffffff, "policy": "nonpreempt", "max_decisions": 400000}, "charts": {"main": txt}, "actors": {"main": ops}}
+                "sched": {"seed": seed & 0x7fffffff, "policy": "nonpreempt", "max_decisions": 400000}, "step_budget": 900, "charts": {"main": txt}, "actors": {"main": ops}}
     plan = workload.chart_and_history(seed, k, engine="large", adversarial_p=0.0, rec_micro=False, plant_p=0.2)
     plan["source"] = "generated"
     return plan
